@@ -345,11 +345,7 @@ class RefsContainer:
                 self.set_if_equals(
                     Ref(b"/".join((base, name))), None, value, message=message
                 )
-            if to_delete:
-                try:
-                    to_delete.remove(name)
-                except KeyError:
-                    pass
+                to_delete.discard(name)
         for ref in to_delete:
             self.remove_if_equals(Ref(b"/".join((base, ref))), None, message=message)
 
